@@ -5,6 +5,7 @@ import Driver.Util
 import Driver.C09Decl
 
 import Driver.C09Call2
+import Driver.C09Pipe
 
 /-! Line-protocol handler for property C09 (formatter core). -/
 namespace Driver.C09
@@ -182,6 +183,6 @@ def handle (op : String) (args : List String) : Option String :=
   | "normcall", [c] => do
     let c ← decCall c
     pure (encCall (Martian.FormatCall.normCall c))
-  | op, args => Driver.C09.handleDecl op args <|> Driver.C09.handleCall2 op args
+  | op, args => Driver.C09.handleDecl op args <|> Driver.C09.handleCall2 op args <|> Driver.C09.handlePipe op args
 
 end Driver.C09
